@@ -451,6 +451,11 @@ pub fn plan(prop: &str, tier: Tier) -> Vec<RunSpec> {
             for c in policy_menu(Kind::Wtlfu, tier) {
                 out.push(spec(c, obs_want()));
             }
+            if !cfg!(feature = "std") {
+                // the no_std flavour of the crate has its own count-min sketch: the closures above are
+                // repeated on it (./check runs this build first), the large pre-filled roots are not
+                return out;
+            }
             for (c, d) in large_menu(Kind::Wtlfu, tier) {
                 let mut s = spec(c, obs_want());
                 s.max_depth = d;
